@@ -126,6 +126,13 @@ def _c16_harnesses():
                 bound="at most {M} physical items: every (length, consumed prefix) enumerated; keys, values, erased flags "
                       "symbolic; inductive per operation => all histories within that size",
                 covers=(0 if split else covers), timeout=1200, mod="sorted_deque", must_panic_in=mp))
+        if kind == "whole":
+            hs.append(Harness(
+                "c16_whole_remove_tied_keys", ["C16"], "SortedDeque::remove",
+                "[whole-item ordering, states in which two neighbouring items share the key field and differ by value] same triple "
+                "as c16_whole_remove_*.  KNOWN FINDING F6: erasing such an item changes its rank, the physical items are no longer "
+                "sorted and a present item is no longer found (c16_whole_remove_a/_b cover the states without tied key fields)",
+                kind="bounded", bound="at most 3 physical items, tied key fields", covers=0, timeout=1200, mod="sorted_deque"))
         hs.append(Harness(
             "c16_%s_cleanup_front_contract" % kind, ["C16"], "SortedDeque::cleanup_front",
             "[%s] the contract ASSUMED by the Verus unit sorted_deque: from any inner-deque-valid state (erased flags arbitrary) "
